@@ -158,6 +158,7 @@ func c06Check(tree *ttlvref.Node, code uint32, response bool, enc string, reuse 
 	refBin := ttlvref.Write(tree)
 	var payload kmip.OperationPayload
 	var reenc []byte
+	var decoded any
 	derr := safely(func() error {
 		dec, err := libDecoder(enc, input)
 		if err != nil {
@@ -171,6 +172,7 @@ func c06Check(tree *ttlvref.Node, code uint32, response bool, enc string, reuse 
 			}
 			payload = it.ResponsePayload
 			e.TagAny(tagBatchItem, &it)
+			decoded = &it
 		} else {
 			var fresh kmip.RequestBatchItem
 			it := &fresh
@@ -183,6 +185,7 @@ func c06Check(tree *ttlvref.Node, code uint32, response bool, enc string, reuse 
 			}
 			payload = it.RequestPayload
 			e.TagAny(tagBatchItem, it)
+			decoded = it
 		}
 		reenc = e.Bytes()
 		return nil
@@ -238,6 +241,51 @@ func c06Check(tree *ttlvref.Node, code uint32, response bool, enc string, reuse 
 	// re-encoding is byte identical with the reference binary form (opaque preservation for unknowns)
 	if !bytes.Equal(reenc, refBin) {
 		return "reencode-differs", fmt.Errorf("re-encoding differs from the reference binary form:\n got  %x\n want %x", reenc, refBin)
+	}
+	if want == "UnknownPayload" {
+		// opaque content stays opaque through the text forms too: what the library writes for it in XML and JSON it reads
+		// back to the same bytes
+		// (checked in the text form the item arrived in: its content is known to be expressible there)
+		for _, tenc := range []string{"xml", "json"} {
+			if tenc != enc {
+				continue
+			}
+			var back []byte
+			terr := safely(func() error {
+				te := ttlv.NewXMLEncoder()
+				if tenc == "json" {
+					te = ttlv.NewJSONEncoder()
+				}
+				te.TagAny(tagBatchItem, decoded)
+				doc := append([]byte{}, te.Bytes()...)
+				dec, err := libDecoder(tenc, doc)
+				if err != nil {
+					return fmt.Errorf("%s: %w", doc, err)
+				}
+				e := ttlv.NewTTLVEncoder()
+				if response {
+					var it kmip.ResponseBatchItem
+					if err := dec.TagAny(tagBatchItem, &it); err != nil {
+						return fmt.Errorf("%s: %w", doc, err)
+					}
+					e.TagAny(tagBatchItem, &it)
+				} else {
+					var it kmip.RequestBatchItem
+					if err := dec.TagAny(tagBatchItem, &it); err != nil {
+						return fmt.Errorf("%s: %w", doc, err)
+					}
+					e.TagAny(tagBatchItem, &it)
+				}
+				back = e.Bytes()
+				return nil
+			})
+			if terr != nil {
+				return "opaque-payload-lost-in-" + tenc, fmt.Errorf("the %s form the library writes for the item of the unknown operation does not decode: %w", tenc, terr)
+			}
+			if !bytes.Equal(back, refBin) {
+				return "opaque-payload-changed-in-" + tenc, fmt.Errorf("through %s the item of the unknown operation becomes\n got  %x\n want %x", tenc, back, refBin)
+			}
+		}
 	}
 	return "", nil
 }
